@@ -4736,6 +4736,35 @@ func c07WaitersWokenOnlyOnTheirCondition(w *World, r *Report) {
 					}
 				}
 			}
+			// a predicate helper (`q.isFull()`): what it returns
+			if c, ok := v.(*ssa.Call); ok {
+				if g := c.Call.StaticCallee(); g != nil && inModule(g) && d < 6 {
+					for _, b := range g.Blocks {
+						if ret, ok := b.Instrs[len(b.Instrs)-1].(*ssa.Return); ok {
+							for _, res := range ret.Results {
+								walk(res, d+2)
+							}
+						}
+					}
+				}
+			}
+			// a flag kept in the queue (`queueHasData`): what is stored into it
+			if u, ok := v.(*ssa.UnOp); ok && u.Op == token.MUL {
+				if fa, ok := u.X.(*ssa.FieldAddr); ok {
+					if bt, ok := fieldVarOf(fa).Type().Underlying().(*types.Basic); ok && bt.Kind() == types.Bool {
+						fv := fieldVarOf(fa)
+						for _, g := range fns {
+							allInstrs(g, func(in ssa.Instruction) {
+								if st, ok := in.(*ssa.Store); ok {
+									if fa2, ok := st.Addr.(*ssa.FieldAddr); ok && fieldVarOf(fa2) == fv {
+										walk(st.Val, d+2)
+									}
+								}
+							})
+						}
+					}
+				}
+			}
 			if in, ok := v.(ssa.Instruction); ok {
 				for _, op := range in.Operands(nil) {
 					if *op != nil {
@@ -5109,7 +5138,8 @@ func c10DotRemovalIsByContent(w *World, r *Report) {
 					if bnd == nil {
 						continue
 					}
-					if k, ok := constIntVal(bnd); ok && k > 2 {
+					// a positional remover works its way through the text: the cut stands in a loop
+					if k, ok := constIntVal(bnd); ok && k > 2 && cycleThrough(x.Block()) != nil {
 						positional = w.Pos(x.Pos())
 					}
 				}
@@ -5180,7 +5210,7 @@ func c14CloseReleasesCarrierOnEveryPath(w *World, r *Report) {
 		recv := fn.Params[0]
 		// carrier close: Close invoked on (a load of) a field of the receiver, directly, through LogClose-like
 		// helpers that close their argument, or in a deferred call
-		fieldOfRecv := func(v ssa.Value) *types.Var {
+		fieldOfRecvX := func(v ssa.Value, recv ssa.Value) *types.Var {
 			for _, root := range provenance(v, provOpts{}) {
 				u, ok := root.(*ssa.UnOp)
 				if !ok {
@@ -5191,13 +5221,14 @@ func c14CloseReleasesCarrierOnEveryPath(w *World, r *Report) {
 					continue
 				}
 				for _, r2 := range provenance(fa.X, provOpts{}) {
-					if r2 == ssa.Value(recv) {
+					if r2 == recv {
 						return fieldVarOf(fa)
 					}
 				}
 			}
 			return nil
 		}
+		fieldOfRecv := func(v ssa.Value) *types.Var { return fieldOfRecvX(v, recv) }
 		closesArg := func(g *ssa.Function) bool {
 			if g == nil || len(g.Params) == 0 || !inModule(g) {
 				return false
@@ -5215,31 +5246,52 @@ func c14CloseReleasesCarrierOnEveryPath(w *World, r *Report) {
 			}
 			return found
 		}
-		carrierClose := func(in ssa.Instruction) *types.Var {
+		var carrierCloseX func(in ssa.Instruction, recv ssa.Value, depth int) *types.Var
+		carrierCloseX = func(in ssa.Instruction, recv ssa.Value, depth int) *types.Var {
 			c, ok := in.(ssa.CallInstruction)
 			if !ok {
 				return nil
 			}
 			cc := c.Common()
 			if cc.IsInvoke() && cc.Method.Name() == "Close" {
-				return fieldOfRecv(cc.Value)
+				return fieldOfRecvX(cc.Value, recv)
 			}
 			if g := cc.StaticCallee(); g != nil {
 				if g.Name() == "Close" && g.Signature.Recv() != nil && len(cc.Args) > 0 {
-					if f := fieldOfRecv(cc.Args[0]); f != nil {
+					if f := fieldOfRecvX(cc.Args[0], recv); f != nil {
 						return f
 					}
 					// the embedded carrier: x.Inner.Close() on the address of a field
-					if fa, ok := cc.Args[0].(*ssa.FieldAddr); ok && fa.X == ssa.Value(recv) {
+					if fa, ok := cc.Args[0].(*ssa.FieldAddr); ok && fa.X == recv {
 						return fieldVarOf(fa)
 					}
 				}
 				if closesArg(g) && len(cc.Args) > 0 {
-					return fieldOfRecv(cc.Args[0])
+					return fieldOfRecvX(cc.Args[0], recv)
+				}
+				// a helper method of the same object that closes the carrier on all its returning paths
+				if depth < 2 && g != fn && inModule(g) && g.Signature.Recv() != nil && len(cc.Args) > 0 && cc.Args[0] == recv && len(g.Params) > 0 && len(g.Blocks) > 0 {
+					var f *types.Var
+					all := true
+					okp := enumPaths(g, nil, func(x ssa.Instruction) bool {
+						if fv := carrierCloseX(x, g.Params[0], depth+1); fv != nil {
+							f = fv
+							return true
+						}
+						return false
+					}, nil, func(e pathExit) {
+						if _, isRet := e.Last.(*ssa.Return); isRet && len(e.State.Events) == 0 {
+							all = false
+						}
+					})
+					if okp && all && f != nil {
+						return f
+					}
 				}
 			}
 			return nil
 		}
+		carrierClose := func(in ssa.Instruction) *types.Var { return carrierCloseX(in, recv, 0) }
 		var carrier *types.Var
 		allInstrs(fn, func(in ssa.Instruction) {
 			if f := carrierClose(in); f != nil && carrier == nil {
@@ -5275,8 +5327,17 @@ func c14CloseReleasesCarrierOnEveryPath(w *World, r *Report) {
 						return
 					}
 				case *ssa.UnOp:
-					if fa, ok := x.X.(*ssa.FieldAddr); ok && fa.X == ssa.Value(recv) {
-						if bt, ok := fieldVarOf(fa).Type().Underlying().(*types.Basic); ok && bt.Kind() == types.Bool {
+					if fa, ok := x.X.(*ssa.FieldAddr); ok {
+						// a flag of the receiver, possibly inside a struct it embeds by value
+						base := fa.X
+						for i := 0; i < 4; i++ {
+							if f2, ok := base.(*ssa.FieldAddr); ok {
+								base = f2.X
+								continue
+							}
+							break
+						}
+						if bt, ok := fieldVarOf(fa).Type().Underlying().(*types.Basic); ok && bt.Kind() == types.Bool && base == ssa.Value(recv) {
 							return
 						}
 					}
